@@ -10,13 +10,14 @@ import (
 )
 
 var commands = map[string]func([]string) error{
-	"store": cmdStore,
-	"smtp":  cmdSMTP,
-	"rest":  cmdRest,
+	"store":    cmdStore,
+	"crash":    cmdCrash,
+	"smtp":     cmdSMTP,
+	"rest":     cmdRest,
 	"sanitize": cmdSanitize,
-	"pop3":  cmdPOP3,
-	"naming": cmdNaming,
-	"wild":  cmdWild,
+	"pop3":     cmdPOP3,
+	"naming":   cmdNaming,
+	"wild":     cmdWild,
 }
 
 func main() {
